@@ -16,7 +16,7 @@ FINITE_FEATURES = [
     'orth_thread', 'orth_positive', 'err_active_sites', 'err_diag', 'err_thread_nohc', 'err_thread_nocombine',
 ]
 INFINITE_FEATURES = [
-    'combine', 'start_env_sites', 'TM', 'start_env_0', 'noncanonical_init', 'chi_list_inf', 'norm_tol_loop', 'norm_tol_none', 'rerun_inf',
+    'combine', 'start_env_sites', 'TM', 'start_env_0', 'noncanonical_init', 'chi_list_inf', 'norm_tol_loop', 'norm_tol_loose', 'rerun_inf',
     'resume_seq', 'resume_incompatible_psi', 'resume_other_model', 'tol_trunc_inf', 'err_orth_inf', 'reinit_env_inf', 'resume_seq_chi_list',
 ]
 VUMPS_FEATURES = [
@@ -84,7 +84,8 @@ def gen_finite(rng, k, gen_case):
     elif feat == 'max_S_err':
         opts['max_S_err'] = rng.choice([1e-3, 1e-8, 1e-12])
     elif feat == 'norm_tol':
-        opts['norm_tol'] = rng.choice([None, 1e-5, 1e-12])
+        # (norm_tol = None, an undocumented value that switches the final canonicalisation off, is not drawn)
+        opts['norm_tol'] = rng.choice([1e-3, 1e-5, 1e-12])
         opts['norm_tol_final'] = rng.choice([1e-10, 1e-14, 1e-6])
         if 'chi_list' not in opts:
             opts['trunc_params']['chi_max'] = rng.choice([2, 3, 4])
@@ -306,8 +307,9 @@ def gen_infinite(rng, k):
         opts['norm_tol_final'] = rng.choice([1e-14, 1e-10])
         if 'update_env' not in opts and engine == 'two':
             opts['update_env'] = rng.choice([1, 2])
-    elif feat == 'norm_tol_none':
-        opts['norm_tol'] = None
+    elif feat == 'norm_tol_loose':
+        opts['norm_tol'] = rng.choice([1e-3, 1e-4])
+        opts['norm_tol_final'] = rng.choice([1e-7, 1e-9])
     elif feat == 'rerun_inf':
         case['rerun'] = 1
         case['no_stop_trace'] = True
@@ -427,7 +429,8 @@ def finite_oracle(case, r, dense_H, sector_mask, h_symmetry_labels, hist, tag=''
     scale = max(1.0, np.abs(w).max())
     if abs(nrm - 1) > 1e-8 or abs(r[tag + 'norm'] - 1) > 1e-8:
         probs.append('returned state not normalised: |psi| = %.12g, psi.norm = %.12g' % (nrm, r[tag + 'norm']))
-    if r[tag + 'norm_test'] > 1e-8:
+    # ("norm_tol_final: if norm_err < norm_tol_final [the state is returned as it is, otherwise] call canonical_form")
+    if r[tag + 'norm_test'] > max(1e-8, case['options'].get('norm_tol_final') or 0.0):
         probs.append('returned state not canonical: norm_test = %.3e' % r[tag + 'norm_test'])
     if r[tag + 'S_ndim'] != 1:
         probs.append('returned state has a non-diagonal (2D) matrix of singular values')
@@ -527,7 +530,7 @@ def check_finite(ctx, case, r, helpers, hist):
         lp = case['options'].get('lanczos_params') or {}
         shift = lp.get('E_shift', 0.0) if (r.get('N_lanczos_last') or [-1])[-1] >= 1 else 0.0
         warned = 'energy consistent with zero' in allw
-        caveat = warned or (len(w) > n_o and w[n_o] + shift > -1e-6) or len(w) <= n_o
+        caveat = warned or (len(w) > n_o and w[n_o] + shift > -1e-6) or len(w) <= n_o or any(lo.get('warned') for lo in (r.get('lower') or []))
         hist['ext_orth_target_level_not_negative'] = hist.get('ext_orth_target_level_not_negative', 0) + int(caveat)
         if caveat:
             p1 = [x for x in p1 if not (x.startswith('reported E') or x.startswith('energy below'))]
@@ -610,7 +613,7 @@ def check_finite(ctx, case, r, helpers, hist):
                          'E0(all sectors) = %.12g (chi %s)' % (r['E'], Eg, r['chi']))
         else:
             hist['ext_ED_all_global_gs'] = hist.get('ext_ED_all_global_gs', 0) + 1
-    probs += check_effh(r, scale, True, r['norm_test'] <= 1e-8)
+    probs += check_effh(r, scale, True, r['norm_test'] <= 1e-10)
     pt = check_lanczos_tols(case, r)
     hist['ext_lanczos_tol_updates_checked'] = hist.get('ext_lanczos_tol_updates_checked', 0) + int('lanczos_tols_end' in r)
     probs += pt
